@@ -214,7 +214,29 @@ def npred(t, pol=True, atomize=None):
         return ("nonempty", t[2][0]) if pol else ("empty", t[2][0])
     if k == "ext" and t[1] == "bool" and len(t[2]) == 1:
         return npred(t[2][0], pol, atomize)
+    if is_collection(t):
+        # `if pa(j, A):` / `if sinks_list:` - the truth value of a built-in set / list / dict is "it is not empty"
+        return ("nonempty", t) if pol else ("empty", t)
     return ("atom", t, pol)
+
+
+SET_VALUED = {"pa", "ch", "neighbors", "adj", "na", "an", "desc", "ancestors", "descendants", "chain_component", "vstructures"}
+
+
+def is_collection(t):
+    """a term that is certainly a built-in collection: a display, set(...) / list(...) / sorted(...), set algebra on such terms, or one of the
+    repository's node-set helpers (they all `return set(...)`)"""
+    if not isinstance(t, tuple) or not t:
+        return False
+    if t[0] in ("set", "list", "dict"):
+        return True
+    if t[0] == "ext" and t[1] in ("set", "list", "sorted", "frozenset", "dict", "tuple") and len(t) == 4:
+        return True
+    if t[0] == "call" and isinstance(t[1], str) and t[1].startswith("sempler.utils.") and t[1].rsplit(".", 1)[-1] in SET_VALUED:
+        return True
+    if t[0] == "binop" and t[1] in ("&", "|", "-", "^") and len(t) == 4:
+        return is_collection(t[2]) and is_collection(t[3])
+    return False
 
 
 def conj(path, atomize=None):
